@@ -17,6 +17,7 @@ package main
 
 import (
 	"fmt"
+	"os"
 	"path/filepath"
 	"runtime"
 	"sort"
@@ -697,11 +698,150 @@ func (f *found) flush(r *lib.Run) {
 	f.m = nil
 }
 
+// ---- level 2b: sources on disk ---------------------------------------------------------------------------------------
+// A target's plain sources (files, directories, symlinks of its package) are walked on disk by uploadInput. Declarations
+// may overlap (a directory and a file below it): every set of declarations, in every order, must give the input root of
+// the set's union - one digest per set, and the same digest as the set without the redundant (covered) declarations.
+
+var replayDiskOrder []string
+
+func checkDiskSources(r *lib.Run) (int, int) {
+	base := "/dev/shm"
+	if fi, err := os.Stat(base); err != nil || !fi.IsDir() {
+		base = ""
+	}
+	root, err := os.MkdirTemp(base, "verif-c28-")
+	if err != nil {
+		lib.Fatal("%s", err)
+	}
+	defer os.RemoveAll(root)
+	root, _ = filepath.EvalSymlinks(root)
+	for p, c := range map[string]string{"p/res/a.txt": "a", "p/res/sub/b.txt": "b", "p/res/sub/deep/c.txt": "c", "p/top.txt": "t"} {
+		os.MkdirAll(filepath.Join(root, filepath.Dir(p)), 0o755)
+		os.WriteFile(filepath.Join(root, p), []byte(c), 0o644)
+	}
+	os.Symlink("a.txt", filepath.Join(root, "p/res/link"))
+	old, _ := os.Getwd()
+	os.Chdir(root)
+	defer os.Chdir(old)
+	oldRoot := core.RepoRoot
+	core.RepoRoot = root
+	defer func() { core.RepoRoot = oldRoot }()
+
+	decls := []string{"res", "res/sub", "res/a.txt", "res/link", "res/sub/b.txt", "res/sub/deep", "top.txt"}
+	covered := func(set []string, x string) bool { // x is below another declared directory
+		for _, y := range set {
+			if y != x && strings.HasPrefix(x, y+"/") {
+				return true
+			}
+		}
+		return false
+	}
+	digestOf := func(order []string) (string, error) {
+		cfg := core.DefaultConfiguration()
+		cfg.Build.Path = []string{"/usr/local/bin", "/usr/bin", "/bin"}
+		cfg.Build.HashFunction = "sha256"
+		st := core.NewBuildState(cfg)
+		c := remote.VerifNewClientC28(st)
+		c.VerifResetC28(st)
+		t := core.NewBuildTarget(core.NewBuildLabel("p", "t"))
+		t.Command = "true"
+		t.AddOutput("out")
+		t.BuildTimeout = 600e9
+		for _, d := range order {
+			t.AddSource(core.FileLabel{File: d, Package: "p"})
+		}
+		st.Graph.AddTarget(t)
+		rootDir, _, err := c.VerifUploadInputsC28(t, false)
+		if err != nil {
+			return "", err
+		}
+		return c.VerifDigestC28(rootDir).Hash, nil
+	}
+	maxK := 3
+	if !r.Quick() {
+		maxK = 4
+	}
+	sets, orders := 0, 0
+	if replayDiskOrder != nil {
+		var minimal []string
+		for _, x := range replayDiskOrder {
+			if !covered(replayDiskOrder, x) {
+				minimal = append(minimal, x)
+			}
+		}
+		ref, _ := digestOf(minimal)
+		if got, err := digestOf(replayDiskOrder); err != nil || got != ref {
+			r.Violate("uploadInputs:disk-sources:input-root-depends-on-declaration-order-or-overlap", map[string]any{"sources_in_order": replayDiskOrder, "equivalent_declarations": minimal},
+				fmt.Sprintf("sources %v give input root %s (err %v); the same inputs declared as %v give %s", replayDiskOrder, got, err, minimal, ref))
+		}
+		return 1, 1
+	}
+	var rec func(start int, cur []string)
+	rec = func(start int, cur []string) {
+		if len(cur) > 0 {
+			sets++
+			var minimal []string
+			for _, x := range cur {
+				if !covered(cur, x) {
+					minimal = append(minimal, x)
+				}
+			}
+			ref, err := digestOf(minimal)
+			if err != nil {
+				r.Violate("uploadInputs:disk-sources:error", map[string]any{"sources": minimal}, err.Error())
+				return
+			}
+			perm := append([]string{}, cur...)
+			var permute func(k int)
+			permute = func(k int) {
+				if k == len(perm) {
+					orders++
+					got, err := digestOf(perm)
+					if err != nil || got != ref {
+						cls := "uploadInputs:disk-sources:input-root-depends-on-declaration-order-or-overlap"
+						if !r.HasViolation(cls) {
+							r.Violate(cls, map[string]any{"sources_in_order": append([]string{}, perm...), "equivalent_declarations": minimal},
+								fmt.Sprintf("sources %v give input root %s (err %v); the same inputs declared as %v give %s", perm, got, err, minimal, ref))
+						} else {
+							r.Violate(cls, nil, "")
+						}
+					}
+					return
+				}
+				for i := k; i < len(perm); i++ {
+					perm[k], perm[i] = perm[i], perm[k]
+					permute(k + 1)
+					perm[k], perm[i] = perm[i], perm[k]
+				}
+			}
+			permute(0)
+		}
+		if len(cur) == maxK {
+			return
+		}
+		for i := start; i < len(decls); i++ {
+			rec(i+1, append(append([]string{}, cur...), decls[i]))
+		}
+	}
+	rec(0, nil)
+	return sets, orders
+}
+
 func main() {
 	r := lib.Start("C28", "exploration")
 	lib.Quiet()
 	cl0 = newL2().c
 	if r.Replay != "" {
+		var dw struct {
+			Order []string `json:"sources_in_order"`
+		}
+		lib.LoadReplay(r.Replay, &dw)
+		if len(dw.Order) > 0 {
+			replayDiskOrder = dw.Order
+			checkDiskSources(r)
+			r.Finish(lib.Coverage{Evaluations: 1, DistinctNontrivial: 1, Rule: "replay", Samples: []any{dw}, Exhaustive: true})
+		}
 		var w witness
 		lib.LoadReplay(r.Replay, &w)
 		var res result
@@ -722,6 +862,9 @@ func main() {
 		}
 		r.Finish(lib.Coverage{Evaluations: 1, DistinctNontrivial: 1, Rule: "replay", Samples: []any{w}, Exhaustive: true})
 	}
+
+	// level 2b first (it needs the working directory): plain source files and directories on disk
+	diskSets, diskOrders := checkDiskSources(r)
 
 	var evals, nontrivial, orders int64
 	var samples lib.Samples
@@ -851,6 +994,6 @@ func main() {
 		Rule:               fmt.Sprintf("level 1: every coherent set of <=%d entries, and every such multiset with one duplicated declaration, from a universe of 17 (7 files at depth<=3, 5 symlinks, 5 digested directory nodes; at least two of each kind per directory), each in every distinct insertion order; level 2: the same for <=%d entries from a universe of 11, one entry per dependency target, x 4 declaration modes (deps / srcs / srcs+deps / filegroup srcs), every assignment of entries to labels; level 3: all 2^8 environment maps x sandbox x binary; non-trivial = at least two entries/variables", max1, max2),
 		Samples:            samples.List(),
 		Exhaustive:         !r.Capped,
-		Extra:              map[string]any{"orders_executed": orders},
+		Extra:              map[string]any{"orders_executed": orders, "disk_source_declaration_sets": diskSets, "disk_source_declaration_orders": diskOrders},
 	})
 }
